@@ -63,6 +63,8 @@ type JobScenario struct {
 	Probes     bool     `json:"probes,omitempty"`    // also stop the clock one second before every deadline
 
 	Budget  mc.Budget `json:"budget"`
+	// ColdStart: after a restart the Job and Pod informers list one after the other (DESIGN.md 10.9).
+	ColdStart bool `json:"coldStart,omitempty"`
 	Horizon int       `json:"horizon,omitempty"` // seconds of simulated time explored (0 = unbounded)
 	// KnownOff removes an environment feature from the alphabet (known-finding split runs).
 	NoStalePods bool `json:"noStalePods,omitempty"`
@@ -226,6 +228,9 @@ func newJobWorld(scn JobScenario) *jobWorld {
 	b := mc.NewBase(cfgs, true)
 	w.Base = b
 	b.Budget = scn.Budget
+	if scn.ColdStart {
+		b.ColdStart, b.ColdResources, b.ResyncMode = true, []string{sim.Jobs, sim.Pods}, true
+	}
 	b.Horizon = time.Duration(scn.Horizon) * time.Second
 	if scn.ForeignPod != "" {
 		b.StaticFeatures = append(b.StaticFeatures, "foreign-pod")
